@@ -17,6 +17,7 @@ This module implements the :class:`.TDMProgram` class which acts as a representa
 """
 # pylint: disable=too-many-instance-attributes,attribute-defined-outside-init
 
+import copy
 import itertools
 from operator import itemgetter
 from collections.abc import Iterable
@@ -591,7 +592,11 @@ class TDMProgram(Program):
             if par_is_symbolic(params[i]):
                 params[i] = self.parameters[params[i].name][t % self.timebins]
 
-        self.append(cmd.op.__class__(*params), modes)
+        # copy the operation so that everything except the parameters (dagger, select, dark_counts, ...)
+        # is retained
+        op = copy.copy(cmd.op)
+        op.p = params
+        self.append(op, modes)
 
     def assert_modes(self, device):
         """Check that the number of modes in the program is valid.
